@@ -518,10 +518,15 @@ class SchedulingSolver(BaseModelWithJson):
         """create and return a SchedulingSolution instance"""
         solution = SchedulingSolution(problem=self.problem)
         # horizon
-        if self.problem.horizon is not None:
-            solution.horizon = self.problem.horizon
-        else:
+        if self.problem.horizon is None:
             solution.horizon = z3_sol[self.problem._horizon].as_long()
+        elif isinstance(self.problem.horizon, z3.ArithRef):
+            # a horizon given as a z3 expression is reported by its value in this solution
+            solution.horizon = z3_sol.eval(
+                self.problem.horizon, model_completion=True
+            ).as_long()
+        else:
+            solution.horizon = self.problem.horizon
 
         # process tasks
         for task in self.problem.tasks.values():
